@@ -332,7 +332,11 @@ func runC08Cov(c *ctx) []procOut {
 			os.MkdirAll(covdir, 0o755)
 			cc := cfg
 			cc.Build = "cov." + cfg.Build
-			po := c.runConfig(cc, 1, nil, []string{"GOCOVERDIR=" + covdir}, "+blocks")
+			var extra []string
+			if rp := os.Getenv("VERIF_C08_REPLAY"); rp != "" {
+				extra = []string{"-replay", rp}
+			}
+			po := c.runConfig(cc, 1, extra, []string{"GOCOVERDIR=" + covdir}, "+blocks")
 			os.RemoveAll(covdir)
 			mu.Lock()
 			outs = append(outs, po)
